@@ -600,7 +600,21 @@ fn scenario(w: &mut World, ctx: &RunCtx, states: &mut Vec<u64>) -> Result<(), Vi
             StepKind::Action(12, _) => {
                 // a node info with unknown parts at random positions
                 let unknown = random_unknown_parts(&mut rng, &mut w.ch);
-                let info = alien.info(vec![(Some(rng_id(&mut rng)), vec![SocketAddr::new(IpAddr::V4(Ipv4Addr::new(198, 18, 1, 1)), 1)])]);
+                // 0-4 peer entries with 0-9 addresses per family (an entry without addresses is legal), with or without id
+                let np = w.ch.choose("alien_peer_entries", 5) as usize;
+                let mut plist = vec![];
+                for e in 0..np {
+                    let n4 = *w.ch.pick("alien_peer_v4", &[1usize, 0, 2, 7, 9]);
+                    let n6 = *w.ch.pick("alien_peer_v6", &[0usize, 0, 1, 7, 8]);
+                    let mut a: Vec<SocketAddr> = (0..n4).map(|i| SocketAddr::new(IpAddr::V4(Ipv4Addr::new(198, 18, 1 + e as u8, 1 + i as u8)), 1)).collect();
+                    a.extend((0..n6).map(|i| SocketAddr::new(IpAddr::V6(Ipv6Addr::new(0x2001, 0xdb8, 8, e as u16, 0, 0, 0, 1 + i as u16)), 1)));
+                    let id = if w.ch.chance("alien_peer_without_id", 200) { None } else { Some(rng_id(&mut rng)) };
+                    if a.is_empty() {
+                        w.count("c16_alien_peer_entries_without_addresses");
+                    }
+                    plist.push((id, a));
+                }
+                let info = alien.info(plist);
                 let body = ref_encode(&info, &unknown);
                 real_decodes(w, &info, &body, "the alien peer's announcement")?;
                 if let Some(pc) = alien.pc.as_mut() {
